@@ -194,6 +194,20 @@ def build_ekf_float(p, vals, *, cse=True, k=None, max_dt=0.1, pn=None, sn=None, 
     return python.compile_ekf(p.ui_model(), process_noise, sens, sensor_noises, calmap if calmap is not None else float_calibration_map(p, vals), config=cfg)
 
 
+def decoy_program(p):
+    """Another, different filter definition that happens to use the SAME sensor keys and reading names (a second
+    filter object alive in the same process must not influence the first): every sensor expression e becomes 2e + 1,
+    every update expression gets an extra dt."""
+    import dataclasses
+
+    return dataclasses.replace(
+        p,
+        id=p.id + "-decoy",
+        update={s: e + X.V(p.dt) for s, e in p.update.items()},
+        sensors={k_: {r: X.C(2) * e + X.C(1) for r, e in rs.items()} for k_, rs in p.sensors.items()},
+    )
+
+
 def noise_vals_from_env(p, envf):
     pn = {c: envf.get(f"pn_{c}", p.process_noise[c]) for c in p.control}
     sn = {k: {r: envf.get(f"sn_{k}_{r}", p.sensor_noise[k][r]) for r in p.sensors[k]} for k in p.sensors}
